@@ -136,14 +136,30 @@ def run(repo: Repo, L: Ledger, tier: str):
             why5b = f"AGP companion path is '{norm(pdef[0]) if pdef else None}', expected the FASTA path with suffix .agp"
     L.check(ok5b, "R5", wasm.short + ":pair", "same assembly object streamed and formatted; <fasta>.agp", why5b, wasm.loc())
     # the handle streamed into is opened through the output-handle function with a binary mode for FASTA
-    okm = False
+    from ..finite import Opaque, fold_env
+    from ..fold import NotConstant
+
+    okm, whym = False, "FASTA output handle is not opened in binary mode"
     hv = norm(ctor[0].args[0]) if ctor and ctor[0].args else None
-    for n in walk_shallow(wasm.node):
-        if isinstance(n, ast.Assign) and hv is not None and norm(n.targets[0]) == hv and isinstance(n.value, ast.Call) and len(n.value.args) >= 3:
-            marg = n.value.args[2]
-            mdefs = [marg] if not isinstance(marg, ast.Name) else [x.value for x in walk_shallow(wasm.node) if isinstance(x, ast.Assign) and is_name(x.targets[0], marg.id)]
-            okm = len(mdefs) == 1 and isinstance(mdefs[0], ast.IfExp) and try_fold(mdefs[0].body, default=None) == "b" and "'FASTA'" in norm(mdefs[0].test)
-    L.check(okm, "R5", wasm.short + ":binary", "FASTA handle opened in binary mode", "FASTA output handle is not opened in binary mode", wasm.loc())
+    opens = [n for n in walk_shallow(wasm.node) if isinstance(n, ast.Assign) and hv is not None and norm(n.targets[0]) == hv and isinstance(n.value, ast.Call) and len(n.value.args) >= 3]
+    if opens:
+        wp = wasm.params()
+        env = {wp[3]: "FASTA", wp[2]: Opaque("output path"), wp[0]: Opaque("fai")}
+        seen_modes = []
+        for site in opens:
+            res = run_paths(wasm.node.body, env, loop_iters=(0,), stop_at=lambda nd, site=site: nd is site)
+            for r in res:
+                if r["stopped"] is None:
+                    continue
+                try:
+                    seen_modes.append(fold_env(site.value.args[2], r["env"]))
+                except NotConstant:
+                    seen_modes.append(None)
+        if not seen_modes:
+            raise AnalysisError(f"{wasm.short}: the output handle is not opened on any path with format FASTA")
+        okm = all(isinstance(m, str) and "b" in m for m in seen_modes)
+        whym = f"with output format FASTA the handle streamed into is opened with mode suffix {seen_modes} (no 'b'): the byte stream is written to a text handle"
+    L.check(okm, "R5", wasm.short + ":binary", "FASTA handle opened in binary mode", whym, wasm.loc())
 
     # ---- R6
     _random_access(repo, L, fi)
